@@ -210,14 +210,18 @@ class PostProcessor:
     def _build_production_names(self):
         # Glyphs that aren't in the source are not renamed (see below): reserve
         # their names, so that no other glyph is given one of them.
+        # The same goes for '.notdef', which must keep its name (the first glyph
+        # of a CFF charset has to be called '.notdef').
         seen = {
-            name: 1 for name in self.otf.getGlyphOrder() if name not in self.glyphSet
+            name: 1
+            for name in self.otf.getGlyphOrder()
+            if name not in self.glyphSet or name == ".notdef"
         }
         rename_map = {}
         for name in self.otf.getGlyphOrder():
             # Ignore glyphs that aren't in the source, as they are usually generated
             # and we lack information about them.
-            if name not in self.glyphSet:
+            if name not in self.glyphSet or name == ".notdef":
                 continue
             prod_name = self._build_production_name(self.glyphSet[name])
 
